@@ -191,6 +191,36 @@ func (p *sparser) expect(s string) {
 
 func (p *sparser) expr() *SNode {
 	t := p.peek()
+	if t.tok == token.IDENT && t.lit == "seqdef" {
+		// seqdef k: e   -- the sequence whose k-th element is e (a definition: total, sound by construction)
+		p.next()
+		v := p.next()
+		if v.tok != token.IDENT {
+			p.fail("seqdef: expected bound variable")
+		}
+		p.expect(":")
+		body := p.expr()
+		return &SNode{Op: "seqdef", Vars: []string{v.lit}, Args: []*SNode{body}, Pos: t.pos}
+	}
+	if t.tok == token.IDENT && t.lit == "witness" {
+		// witness p: k in lo..hi: cond   -- a sequence W with: if some k in lo..hi satisfies cond(p,k) then W[p] is such a k
+		p.next()
+		pv := p.next()
+		p.expect(":")
+		kv := p.next()
+		if pv.tok != token.IDENT || kv.tok != token.IDENT {
+			p.fail("witness: expected bound variables")
+		}
+		if in := p.next(); in.tok != token.IDENT || in.lit != "in" {
+			p.fail("witness: expected 'in'")
+		}
+		lo := p.binary(3)
+		p.expect("..")
+		hi := p.binary(3)
+		p.expect(":")
+		body := p.expr()
+		return &SNode{Op: "witness", Vars: []string{pv.lit, kv.lit}, Args: []*SNode{lo, hi, body}, Pos: t.pos}
+	}
 	if t.tok == token.IDENT && (t.lit == "forall" || t.lit == "exists") {
 		p.next()
 		n := &SNode{Op: t.lit, Pos: t.pos}
